@@ -527,7 +527,7 @@ var defects = map[string][]string{
 		"permissive-disagree-algorithm", "permissive-disagree-algorithm-material", "permissive-disagree-product-digest", "permissive-none",
 		"insp-named-like-last-step", "insp-named-like-first-step", "permissive-unclean-paths",
 		"permissive-sub-beside-link-disagree", "permissive-sub-beside-link-agree", "permissive-twin-sublayouts-disagree", "permissive-twin-sublayouts-agree"},
-	"c06": {"none", "expired-long", "expired-2s", "future-1h", "garbage", "empty", "rfc3339-offset", "date-only", "year-9999", "fraction", "lowercase"},
+	"c06": {"sub-expired", "sub-undated", "sub-rfc3339-offset", "none", "expired-long", "expired-2s", "future-1h", "garbage", "empty", "rfc3339-offset", "date-only", "year-9999", "fraction", "lowercase"},
 	"c08": {"sub-insp-named-like-first-step", "sub-insp-named-like-last-step", "sub-defective-beside-good-link", "sub-ok", "sub-ok", "sub-badsig", "sub-expired", "sub-missing-link", "sub-rule-violation", "sub-unauthorised", "sub-nested", "sub-nested-defect", "sub-summary-mismatch"},
 	"c10": {"history-same-params", "history-diff-params", "history-no-params", "history-mixed", "mixed-cert-key", "mixed-cert-key", "mixed-cert-key-unsorted", "summary-byproducts", "direct-unclean",
 		"history-multi-alg", "history-multi-alg-mismatch"},
@@ -716,6 +716,22 @@ func genScenario(r *lib.Rng, focus string, idx int) *Scn {
 		case "lowercase":
 			sc.Expires = strings.ToLower(now.Add(48 * time.Hour).Format(f))
 			sc.Expect = "reject"
+		case "sub-expired", "sub-undated", "sub-rfc3339-offset":
+			// the root layout is in date; the layout an authorised functionary hands in as evidence for a step is not
+			i := r.Intn(len(sc.Steps))
+			st := &sc.Steps[i]
+			sub := baseScenario(r, focus, 1)
+			sub.Defect = d
+			sub.Insps = []InspSpec{{Name: "subinsp", Kind: "log"}}
+			sub.Entry = "plain"
+			st.SubSigner = st.Signers[0]
+			st.Threshold = len(st.Signers)
+			sub.Owners = []string{st.SubSigner}
+			sub.Expires = map[string]string{"sub-expired": now.Add(-90 * time.Minute).Format(f), "sub-undated": "",
+				"sub-rfc3339-offset": now.Add(48 * time.Hour).Format("2006-01-02T15:04:05-07:00")}[d]
+			st.Sub = sub
+			sc.Expect = "reject"
+			sc.ForbidLog = []string{"subinsp"}
 		}
 		if len(sc.Insps) == 0 {
 			sc.Insps = []InspSpec{{Name: "insp0", Kind: "log"}}
